@@ -81,6 +81,7 @@ def mutants(prog):
         ("resample: output coordinates not mapped into the input cube", CI, "grid_resample", "coords = grid_transform_points(coords, output_grid, axes, input_grid, axes)", "coords = coords", "T13.resample"),
         ("resample: grid from the first image", DI, "ImageBatch.resample", "grid = tuple((grid.resample(out_spacing) for grid in self._grid))", "grid = tuple((self._grid[0].resample(out_spacing) for grid in self._grid))", "T13.resample"),
         ("conv: crop handed to the grid in tensor order", DI, "ImageBatch.conv", "crop = tuple(reversed(crop))", "crop = tuple(crop)", "T13.conv"),
+        ("grid_sample: constant outside value subtracted in the caller's tensor", "deepali.core.image", "grid_sample", "if out.data_ptr() == data.data_ptr():\n            out = out.sub(padding_value)\n        else:\n            out = out.sub_(padding_value)", "out = out.sub_(padding_value)", "T13.sample"),
     ]
     for name, mod, fn, old, new, expect in specs:
         ov = source_sub(prog, mod, fn, old, new)
